@@ -38,6 +38,8 @@ type Case struct {
 	Pieces []string `json:"pieces"` // names from the piece table; an unknown name stands for itself as text
 	Env
 	Assign bool `json:"assign,omitempty"` // define x by the statement x := r"..." in front of the literal instead of through the scope
+
+	Nest *NestCase `json:"nest,omitempty"` // instead of one literal: the same literal evaluated re-entrantly / repeatedly (see nest_test.go)
 }
 
 // piece is one building block of a literal.
@@ -440,6 +442,9 @@ func short(s string) string {
 var maxVisits int64
 
 func runCase(c Case) *hx.Failure {
+	if c.Nest != nil {
+		return runNest(*c.Nest)
+	}
 	lit, body, ok := build(c)
 	if !ok {
 		hx.E.Exclude("raw.needs-both-quotes")
@@ -612,6 +617,9 @@ func drawData(rt *rapid.T, label string, plain string) string {
 }
 
 func drawCase(rt *rapid.T) Case {
+	if rapid.IntRange(0, 11).Draw(rt, "nest") == 0 {
+		return Case{Form: "dq", Nest: drawNest(rt)}
+	}
 	c := Case{Form: rapid.SampledFrom([]string{"dq", "dq", "dq", "sq", "sq", "raw"}).Draw(rt, "form")}
 	n := rapid.IntRange(1, 8).Draw(rt, "n")
 	for i := 0; i < n; i++ {
